@@ -40,14 +40,30 @@ sourcemap_target = {map}
 /// Content of file `f` in variant `v` ∈ {v0, v1, warn, err_sem, err_syn}.
 pub fn content(f: &str, v: &str) -> String {
     match (f, v) {
-        ("src/pkg.veryl", "v0") => "/// package doc\npackage Pkg {\n    const W: u32 = 4;\n}\n".into(),
-        ("src/pkg.veryl", "v1") => "/// package doc\npackage Pkg {\n    const W: u32 = 5;\n}\n".into(),
+        ("src/pkg.veryl", "v0") => format!("/// package doc\npackage Pkg {{\n    const W: u32 = 4;\n{PKG_F}}}\n"),
+        ("src/pkg.veryl", "v1") => format!("/// package doc\npackage Pkg {{\n    const W: u32 = 5;\n{PKG_F}}}\n"),
+        // interface change that only a user's pass 2 notices: f gains an argument
+        ("src/pkg.veryl", "iface") => "/// package doc\npackage Pkg {\n    const W: u32 = 4;\n    function f (\n        x: input logic,\n        y: input logic,\n    ) -> logic {\n        return ~x & y;\n    }\n}\n".into(),
         ("src/pkg.veryl", "warn") => {
             // a package cannot easily warn; use a second, unused-variable carrying module in the same file
-            "/// package doc\npackage Pkg {\n    const W: u32 = 4;\n}\nmodule PkgAux {\n    var unused_p: logic;\n}\n".into()
+            format!("/// package doc\npackage Pkg {{\n    const W: u32 = 4;\n{PKG_F}}}\nmodule PkgAux {{\n    var unused_p: logic;\n}}\n")
         }
-        ("src/pkg.veryl", "err_sem") => "package Pkg {\n    const W: u32 = UNDEFINED_NAME;\n}\n".into(),
-        ("src/pkg.veryl", "err_syn") => "package Pkg {\n    const W: u32 = ;\n}\n".into(),
+        ("src/pkg.veryl", "err_sem") => format!("package Pkg {{\n    const W: u32 = UNDEFINED_NAME;\n{PKG_F}}}\n"),
+        ("src/pkg.veryl", "err_syn") => format!("package Pkg {{\n    const W: u32 = ;\n{PKG_F}}}\n"),
+        // src/c.veryl is NOT part of the base project: a `set` letter adds it, making it a new
+        // dependent of the unchanged (restored) pkg.veryl
+        ("src/c.veryl", v) => {
+            let e = match v {
+                "v0" => "Pkg::f(i)",
+                "v1" => "~Pkg::f(i)",
+                "warn" => "Pkg::f(i)",
+                "err_sem" => "Pkg::no_such_function(i)",
+                "err_syn" => "Pkg::f(i",
+                _ => unreachable!(),
+            };
+            let extra = if v == "warn" { "    var unused_c: logic;\n" } else { "" };
+            format!("module C (\n    i: input  logic,\n    o: output logic,\n) {{\n{extra}    assign o = {e};\n}}\n")
+        }
 
         ("src/a.veryl", v) => {
             let body = match v {
@@ -103,5 +119,8 @@ pub fn content(f: &str, v: &str) -> String {
         _ => unreachable!("{f} {v}"),
     }
 }
+
+/// function of the package that src/c.veryl calls
+const PKG_F: &str = "    function f (\n        x: input logic,\n    ) -> logic {\n        return ~x;\n    }\n";
 
 pub const VARIANTS: [&str; 5] = ["v0", "v1", "warn", "err_sem", "err_syn"];
